@@ -102,7 +102,16 @@ def run(ck, facts, tier):
                     body_ = m["arms"][arms[0][0]]["body"]
                     rec = [c for c in walk(body_) if c.get("k") == "call" and var_name(c.get("fun")) == "record_specialization" or
                            (c.get("k") == "call" and "record_specialization" in expr_vars(c) and (c.get("fn") or "").endswith(("FnMut::call_mut", "call_mut")))]
-                    err = any(x.get("k") == "adt" and x.get("v") == "OverlappingImpls" for x in walk(body_))
+                    # the error must be returned unconditionally: the first thing the arm does is `return Err(OverlappingImpls)`
+                    first = body_
+                    for _ in range(6):
+                        first = peel(first)
+                        if isinstance(first, dict) and first.get("k") == "block":
+                            first = (first.get("stmts") or [first.get("expr")])[0]
+                        else:
+                            break
+                    err = isinstance(first, dict) and first.get("k") == "return" and \
+                        any(x.get("k") == "adt" and x.get("v") == "OverlappingImpls" for x in walk(first))
                     order = None
                     if rec:
                         order = tuple(v for v in [var_name(x) for x in (peel(rec[0]["args"][-1]).get("es") or rec[0]["args"][-2:])])
